@@ -627,15 +627,24 @@ func c09Stmt(f, k int) (src string, val string, ret bool) {
 		return `{{ try }}{{ fail() }}{{ catch }}c{{ end }}`, "", false
 	case 11:
 		return `{{ range none }}x{{ end }}`, "", false
-	default:
+	case 12:
 		return `{{ if no }}x{{ else if no }}y{{ end }}`, "", false
+	case 13: // round 8: a return in the else list of a range over an empty collection
+		return `{{ range none }}x{{ else }}{{ return "z` + n + `" }}{{ end }}`, "z" + n, true
+	case 14: // ... in a catch body
+		return `{{ try }}{{ fail() }}{{ catch }}{{ return "h` + n + `" }}{{ end }}`, "h" + n, true
+	case 15: // ... in an else-if branch
+		return `{{ if no }}x{{ else if yes }}{{ return "f` + n + `" }}{{ end }}`, "f" + n, true
+	default: // ... in the else list of a range that has elements: not executed
+		return `{{ range s }}{{ else }}{{ return "q` + n + `" }}{{ end }}`, "", false
 	}
 }
 
 // H_C09_returnSequences: an executed template made of three statements, each one of
-// thirteen forms - text, a return of a string / of nil / of an absent map entry, a return
+// seventeen forms - text, a return of a string / of nil / of an absent map entry, a return
 // inside an if or else branch that runs or not, inside try, in an included file, inside a
-// range, and constructs that return nothing (a caught failure, an empty range, an if chain
+// range, in the else list of an empty range, in a catch body, in an else-if branch, and
+// constructs that return nothing (the else list of a non-empty range, a caught failure, an empty range, an if chain
 // of which no branch runs): exec evaluates to the value given to the last return that was
 // executed, whatever came before or comes after it.
 //
@@ -643,7 +652,7 @@ func c09Stmt(f, k int) (src string, val string, ret bool) {
 func H_C09_returnSequences() {
 	src, want := "", ""
 	for k := 0; k < 3; k++ {
-		s, v, ret := c09Stmt(ndChoice("stmt"+ndItoa(k), 13), k)
+		s, v, ret := c09Stmt(ndChoice("stmt"+ndItoa(k), 17), k)
 		src += s
 		if ret {
 			want = v
